@@ -4414,21 +4414,23 @@ fn check_entity_reference(
     in_attribute: bool,
     resolve: &dyn Fn(&str) -> error::Result<XmlNode<XmlEntity>>,
 ) -> error::Result<()> {
+    // `done` maps a checked entity to the number of nested levels of references it stands for (itself
+    // included); the result is that number for `entity`
     fn visit(
         entity: &XmlNode<XmlEntity>,
         in_attribute: bool,
         resolve: &dyn Fn(&str) -> error::Result<XmlNode<XmlEntity>>,
         open: &mut Vec<String>,
-        done: &mut Vec<String>,
-    ) -> error::Result<()> {
+        done: &mut HashMap<String, usize>,
+    ) -> error::Result<usize> {
         let entity = entity.borrow();
         let name = entity.name();
         if entity.parent_id().is_none() {
             // predefined entity (lt, gt, amp, apos, quot)
-            return Ok(());
+            return Ok(1);
         }
-        if done.iter().any(|v| v == name) {
-            return Ok(());
+        if let Some(levels) = done.get(name) {
+            return Ok(*levels);
         }
         if open.iter().any(|v| v == name) {
             return Err(error::Error::InvalidData(format!(
@@ -4438,12 +4440,15 @@ fn check_entity_reference(
         }
         // like elements (parser::MAX_NESTING_DEPTH): every level of nesting is a level of recursion here and
         // wherever the replacement text is built, so a long chain would overflow the stack
-        if open.len() >= xml_parser::MAX_NESTING_DEPTH {
-            return Err(error::Error::InvalidData(format!(
+        let too_deep = |name: &str| {
+            error::Error::InvalidData(format!(
                 "entity references nested deeper than {} at '{}'",
                 xml_parser::MAX_NESTING_DEPTH,
                 name
-            )));
+            ))
+        };
+        if open.len() >= xml_parser::MAX_NESTING_DEPTH {
+            return Err(too_deep(name));
         }
         if entity.notation_name().is_some() {
             return Err(error::Error::InvalidData(format!(
@@ -4459,10 +4464,11 @@ fn check_entity_reference(
                     name
                 )));
             }
-            None => return Ok(()),
+            None => return Ok(1),
         };
 
         open.push(name.to_string());
+        let mut below = 0;
         for value in values {
             match value {
                 XmlEntityValue::Character(v, r) => {
@@ -4479,7 +4485,12 @@ fn check_entity_reference(
                     }
                 }
                 XmlEntityValue::Entity(v) => {
-                    visit(&resolve(v)?, in_attribute, resolve, open, done)?;
+                    let levels = visit(&resolve(v)?, in_attribute, resolve, open, done)?;
+                    // an entity that was checked before is not walked again, but it still nests as deep
+                    if open.len() + levels > xml_parser::MAX_NESTING_DEPTH {
+                        return Err(too_deep(v));
+                    }
+                    below = below.max(levels);
                 }
                 XmlEntityValue::Parameter(_) => {}
                 XmlEntityValue::Text(v) => {
@@ -4493,11 +4504,11 @@ fn check_entity_reference(
             }
         }
         open.pop();
-        done.push(name.to_string());
-        Ok(())
+        done.insert(name.to_string(), below + 1);
+        Ok(below + 1)
     }
 
-    visit(entity, in_attribute, resolve, &mut vec![], &mut vec![])
+    visit(entity, in_attribute, resolve, &mut vec![], &mut HashMap::new()).map(|_| ())
 }
 
 fn entity_value_from_name(
